@@ -559,6 +559,8 @@ pub struct Ctx {
     pub in_epilogue: Cell<bool>,
     pub fin_mark: Cell<u32>,
     pub drop_mark: Cell<u32>,
+    /// resurrections performed by finalizer scripts during the current operation
+    pub op_resurrections: Cell<u32>,
 }
 
 #[derive(Clone, Copy, Debug, Default)]
@@ -667,6 +669,7 @@ impl Ctx {
             in_epilogue: Cell::new(false),
             fin_mark: Cell::new(0),
             drop_mark: Cell::new(0),
+            op_resurrections: Cell::new(0),
         }
     }
 
@@ -1111,7 +1114,11 @@ fn cb_drop(node: &mut Node) {
             let live = m.live();
             if live & (1 << id) != 0 {
                 let via_upgrade = o.upgraded_in_dtor;
+                let resurrected = o.resurrected || c.stats.borrow().resurrections > 0 && c.op_resurrections.get() > 0;
                 drop(m);
+                if resurrected {
+                    v!("C06", "P-res", "object #{} was reachable again (a finalizer resurrected it or an object leading to it) but the collector went on to destroy it", id);
+                }
                 if via_upgrade {
                     v!("C08", "P-upg", "Weak::upgrade called from a destructor or cleaning action returned a Cc to object #{} whose destruction the collector then went on with", id);
                 }
@@ -1174,6 +1181,7 @@ fn cb_drop_end(id: u8) {
 /// Marks everything reachable from `t` that has already been finalized as resurrected
 fn mark_resurrected(t: u8) {
     let c = ctx();
+    c.op_resurrections.set(c.op_resurrections.get() + 1);
     let mut m = c.model.borrow_mut();
     let mut st = vec![t];
     let mut seen: Set = 0;
